@@ -14,6 +14,10 @@ void GMGPolar::solve()
     /* The residual and error histories describe this solve only. */
     residual_norms_.clear();
     exact_errors_.clear();
+    /* The combined mode starts every solve with full grid smoothing, as setup() establishes it. */
+    if (extrapolation_ == ExtrapolationType::COMBINED) {
+        full_grid_smoothing_ = true;
+    }
 
     auto start_initial_approximation = std::chrono::high_resolution_clock::now();
     initializeSolution();
